@@ -3,3 +3,4 @@ import FtProofs.Props.C02
 import FtProofs.Props.C17
 import FtProofs.CandGraphLemmas
 import FtProofs.Props.C18
+import FtProofs.SessionSpec
